@@ -4,7 +4,8 @@ import shutil
 import tempfile
 from rope.base import project as rproject, change
 
-HEADERS = {"none": (None, ""), "utf8": ("utf-8", "# -*- coding: utf-8 -*-\n"), "latin1": ("latin-1", "# coding: latin-1\n"), "ascii": ("ascii", "# coding=ascii\n")}
+HEADERS = {"none": (None, ""), "utf8": ("utf-8", "# -*- coding: utf-8 -*-\n"), "latin1": ("latin-1", "# coding: latin-1\n"), "ascii": ("ascii", "# coding=ascii\n"),
+           "latin1l2": ("latin-1", "#!/usr/bin/env python\n# vim: set fileencoding=latin-1 :\n"), "latin1l2b": ("latin-1", "\n# coding: latin-1\n")}
 NLS = {"lf": "\n", "crlf": "\r\n", "cr": "\r"}
 
 
